@@ -23,7 +23,7 @@ def table_event(eid, u, seed=0, opts=None, full_pairs_upto=6, n_pairs=400, n_spe
     rng = random.Random(seed)
     ev = {'id': eid, 'kind': 'table', 'u': u, 'raised': '', 'd': 0, 'sigrep': [], 'start': 0, 'pqr': [0, 0, 0],
           'names': [], 'bins': [], 'b2c': [], 'signs': [], 'cayley': [], 'prods': [], 'spelled': [],
-          'ifg': [], 'typenums': [], 'opts': opts or {}}
+          'ifg': [], 'typenums': [], 'opts': opts or {}, 'alen': 0, 'frame': [], 'rframe_raised': '', 'rframe': [], 'bgrade': []}
     try:
         alg = K.make_algebra(u, **algebra_options(opts or {}))
     except Exception as e:   # noqa: BLE001
@@ -51,6 +51,25 @@ def table_event(eid, u, seed=0, opts=None, full_pairs_upto=6, n_pairs=400, n_spe
             keys = rng.sample(range(n), rng.randint(0, min(n, 5)))
             mv = MultiVector.fromkeysvalues(alg, tuple(keys), [1] * len(keys))
             ev['typenums'].append([[int(k) for k in keys], int(mv.type_number)])
+    ev['alen'] = len(alg)
+    ev['frame'] = [list(_mvrec(v)) for v in alg.frame]
+    try:
+        rf = alg.reciprocal_frame
+        recs = []
+        for v in rf:
+            if any(x != int(x) for x in v.values()):
+                raise ValueError('reciprocal frame with non-integer coefficients')
+            recs.append(list(_mvrec(v)))
+        ev['rframe'] = recs
+    except ValueError:
+        raise
+    except Exception as e:   # noqa: BLE001
+        ev['rframe_raised'] = type(e).__name__
+    if d <= 6:
+        for _ in range(4):
+            gs = tuple(sorted(rng.sample(range(d + 1), rng.randint(1, min(d + 1, 3)))))
+            bd = alg.blades.grade(*gs) if rng.random() < 0.5 else alg.blades.grade(gs)
+            ev['bgrade'].append([list(gs), [_digits(nm) for nm in bd.keys()], [list(_mvrec(v)) for v in bd.values()]])
     # sign table: complete up to d = full_pairs_upto; above that (lazy tables for d > 6) a random
     # sequence of look-ups that contains both orders of every sampled pair
     if d <= full_pairs_upto:
